@@ -300,4 +300,88 @@ theorem mem_allNamesList_filter (p : Name × Node κ → Bool) : ∀ (es : List 
       · exact Or.inr (Or.inr (mem_allNamesList_filter p r x h))
     · exact mem_allNamesList_of_tail (mem_allNamesList_filter p r x h)
 
+/-! ## old manifests -/
+
+/-- `readManifest` is a function of the bytes found under the digest. -/
+theorem readManifest_eq_dec {ctx : Ctx κ} (g : Good ctx) {s : Store κ} {d : Digest} {o : Obj κ}
+    (h : s.get d = some o) :
+    readManifest ctx s d = match ctx.decBlob (o.bytes ctx) with
+      | some cs => .ok cs
+      | none => .error .badManifest := by
+  unfold readManifest
+  rw [h]
+  cases o with
+  | blob c => simp only [Obj.bytes]; cases ctx.decBlob c <;> rfl
+  | man sch p cs => simp [Obj.bytes, g.dec]
+
+theorem readManifest_bytes {ctx : Ctx κ} (g : Good ctx) {s s1 : Store κ} {d : Digest}
+    {o o1 : Obj κ} (h : s.get d = some o) (h1 : s1.get d = some o1)
+    (hb : o1.bytes ctx = o.bytes ctx) : readManifest ctx s1 d = readManifest ctx s d := by
+  rw [readManifest_eq_dec g h, readManifest_eq_dec g h1, hb]
+
+/-- The old manifest commit starts from does not change when the store grows, provided the
+checksum (if any) was present. -/
+theorem oldManifest_le {ctx : Ctx κ} (g : Good ctx) {s s1 : Store κ} (hle : Store.le ctx s s1)
+    {sum : Digest} (hpres : hasSum sum = true → s.has sum = true) :
+    oldManifest ctx s1 sum = oldManifest ctx s sum := by
+  unfold oldManifest
+  cases hh : hasSum sum with
+  | false => simp
+  | true =>
+    have hhas := hpres hh
+    cases hg : s.get sum with
+    | none => simp [Store.has, hg] at hhas
+    | some o =>
+      obtain ⟨o1, h1, hb⟩ := hle sum o hg
+      simp [Store.has_of_get hg, Store.has_of_get h1, readManifest_bytes g hg h1 hb]
+
+theorem oldManifest_empty (ctx : Ctx κ) (s : Store κ) : oldManifest ctx s "" = .ok [] := by
+  simp [oldManifest, hasSum_empty]
+
+theorem findChild_name {old : List Child} {nm : Bytes} {k : Child}
+    (h : findChild old nm = some k) : k.name = nm := by
+  have := List.find?_some h
+  simpa using this
+
+theorem findChild_nil (nm : Bytes) : findChild [] nm = none := rfl
+
+/-- commit accepts and the decoder leaves alone every entry name of the listing (at any depth) -/
+def NamesOKList (ctx : Ctx κ) (es : List (Name × Node κ)) : Prop :=
+  ∀ nm, nm ∈ allNamesList es → ctx.nameOK nm = true ∧
+    ∀ sch sum isDir, ctx.reload sch ⟨nm, sum, isDir⟩ = ⟨nm, sum, isDir⟩
+
+theorem namesOK_node {ctx : Ctx κ} {nm : Name} {n : Node κ} {r : List (Name × Node κ)}
+    (h : NamesOKList ctx ((nm, n) :: r)) : NamesOK ctx n :=
+  fun x hx => h x (mem_allNamesList_of_node hx)
+
+theorem namesOK_tail {ctx : Ctx κ} {nm : Name} {n : Node κ} {r : List (Name × Node κ)}
+    (h : NamesOKList ctx ((nm, n) :: r)) : NamesOKList ctx r :=
+  fun x hx => h x (mem_allNamesList_of_tail hx)
+
+theorem namesOK_head {ctx : Ctx κ} {nm : Name} {n : Node κ} {r : List (Name × Node κ)}
+    (h : NamesOKList ctx ((nm, n) :: r)) : ctx.nameOK nm = true ∧
+      ∀ sch sum isDir, ctx.reload sch ⟨nm, sum, isDir⟩ = ⟨nm, sum, isDir⟩ :=
+  h nm mem_allNamesList_head
+
+theorem namesOK_dir {ctx : Ctx κ} {es : List (Name × Node κ)} (h : NamesOK ctx (.dir es)) :
+    NamesOKList ctx es := fun x hx => h x (by simpa [allNames] using hx)
+
+theorem Store.has_le {ctx : Ctx κ} {s s1 : Store κ} (hle : Store.le ctx s s1) {d : Digest}
+    (h : s.has d = true) : s1.has d = true := by
+  cases hg : s.get d with
+  | none => simp [Store.has, hg] at h
+  | some o =>
+    obtain ⟨o1, h1, _⟩ := hle d o hg
+    exact Store.has_of_get h1
+
+/-- re-writing bytes that are already there adds nothing -/
+theorem Store.put_le_of_present {ctx : Ctx κ} {s2 s : Store κ} (hle : Store.le ctx s2 s)
+    {d : Digest} {m o : Obj κ} (ho : s.get d = some o) (hb : o.bytes ctx = m.bytes ctx) :
+    Store.le ctx (s2.put d m) s := by
+  intro d' o' h
+  rw [Store.get_put] at h
+  split at h
+  · next hd => cases h; subst hd; exact ⟨o, ho, hb⟩
+  · exact hle d' o' h
+
 end Dud
